@@ -298,9 +298,9 @@ pub fn c10(tier: Tier) -> Check {
         let (n, at) = exhaustive_leg(ALPHA4, 12);
         legs.push(Box::new(SweepLeg { name: "exhaustive-bodies-{0,1,2,8}^12", n, at: Box::new(at), oracle: c10_oracle, exhaustive: true }));
     }
-    legs.push(Box::new(RandomLeg { name: "token-level-bodies", cases: tier.pick(200_000, 5_000_000), make: Box::new(token_level), oracle: c10_oracle }));
-    legs.push(Box::new(RandomLeg { name: "well-formed-from-reference-encoder", cases: tier.pick(40_000, 1_000_000), make: Box::new(well_formed), oracle: c10_oracle }));
-    legs.push(Box::new(RandomLeg { name: "mutated-well-formed", cases: tier.pick(60_000, 1_500_000), make: Box::new(mutated_sdes), oracle: c10_oracle }));
+    legs.push(Box::new(RandomLeg { name: "token-level-bodies", cases: tier.pick(600_000, 5_000_000), make: Box::new(token_level), oracle: c10_oracle }));
+    legs.push(Box::new(RandomLeg { name: "well-formed-from-reference-encoder", cases: tier.pick(120_000, 1_000_000), make: Box::new(well_formed), oracle: c10_oracle }));
+    legs.push(Box::new(RandomLeg { name: "mutated-well-formed", cases: tier.pick(180_000, 1_500_000), make: Box::new(mutated_sdes), oracle: c10_oracle }));
     Check {
         property: "C10",
         rule: "cases = byte strings framed as an SDES packet: bounded-exhaustive bodies over a small alphabet (x padding trailer x source count), token-level bodies with targeted defects (item length +-1..4, \
